@@ -10,9 +10,13 @@ Model of the Wöhler test-data analysis (property C18).
   * `materialdata/woehler/likelihood.py`     Likelihood (`likelihood_finite`, `likelihood_infinite`, `likelihood_total`)
   * `scipy.stats.linregress`                 modelled by the OLS closed form (slope = Sxy / Sxx, intercept = ȳ − slope·x̄)
 
-`scipy.stats.norm.ppf` / `cdf` are PARAMETERS `Q`, `Φ` of the model.  The maximum-likelihood analyzers (`maxlike.py`)
-call `scipy.optimize.fmin`; they are modelled by their objective (the likelihood functions here) and their start point;
-the optimiser itself is external.
+  * `materialdata/woehler/maxlike.py`        MaxLikeInf / MaxLikeFull: start point, objective handed to the optimiser, fixed
+                                              parameters (no run-outs: SD = 0, TS = 1; fewer than two mixed levels: TS of the
+                                              pearl chain), post-processing of the optimiser's answer
+
+`scipy.stats.norm.ppf` / `cdf` are PARAMETERS `Q`, `Φ` of the model.  `scipy.optimize.fmin` is a PARAMETER `opt` of the
+maximum-likelihood pipelines `maxLikeInf` / `maxLikeFull`: `opt f` is the point (in parameters RELATIVE to the start
+values, as the code optimises since fc45e06) that the optimiser returns for the objective `f`; nothing is assumed of it.
 
 Generic in the carrier (see `Model/Num.lean`).  No Mathlib import.
 -/
@@ -243,6 +247,54 @@ def likTotal (Φ : α → α) (d : List (Test α)) (c : Curve α) : Option α :=
   match likFinite d c.SD c.k1 c.ND c.TN, likInfinite Φ d c.SD c.TS with
   | some a, some b => some (a + b)
   | _, _ => none
+
+/-! ### maximum likelihood (`maxlike.py`); the optimiser is a parameter -/
+
+/-- the objective `MaxLikeInf.__max_likelihood_inf_limit` hands to `fmin` (negated there): the infinite-zone likelihood in
+parameters relative to the start values `SD_start = finite_infinite_transition`, `TS_start = 1.2`; `d` = reduced data -/
+def maxLikeInfObjective (Φ : α → α) (d : List (Test α)) (p : α × α) : Option α :=
+  likInfinite Φ d (p.1 * transition d) (p.2 * 1.2)
+
+/-- `MaxLikeInf(df).analyze()` in the regular case; `opt f` = the relative parameters the optimiser returns for objective `f`
+(started at `(1, 1)`).  `SD`, `TS` come from the optimiser, `ND` is re-evaluated at the new `SD`, `k_1`, `TN` stay. -/
+def maxLikeInf (Q Φ : α → α) (opt : (α × α → Option α) → α × α) (d0 : List (Test α)) : Curve α :=
+  let d := irrelevantRunoutsDropped d0
+  let wc := elementaryCore Q d
+  let (slope, icpt) := fitSlope d
+  let r := opt (maxLikeInfObjective Φ d)
+  let SD := r.1 * transition d
+  { wc with SD := SD, TS := r.2 * 1.2, ND := transitionCycles slope icpt SD }
+
+/-- `L` is a mixed load level: a fracture and a run-out were observed on it (`FatigueData.mixed_loads`) -/
+def isMixedLoad (d : List (Test α)) (L : α) : Bool :=
+  (fractures d).any (fun t => eqα t.load L) && (runouts d).any (fun t => eqα t.load L)
+
+/-- `len(mixed_loads) < 2`: any two mixed load levels coincide -/
+def fewMixedLevels (d : List (Test α)) : Bool :=
+  d.all fun t => d.all fun u => !(isMixedLoad d t.load && isMixedLoad d u.load) || eqα t.load u.load
+
+/-- The curve `MaxLikeFull.__likelihood_wrapper` / `__make_parameters` build from the optimiser's vector `rel` (relative
+to the start curve `wc`; components of fixed parameters are ignored) - without user-fixed parameters:
+no run-outs: `SD = 0`, `TS = 1` fixed; run-outs but fewer than two mixed levels: `TS` fixed to the pearl-chain value
+(which is `wc.TS`); every component passes through `np.abs`. -/
+def fullParams (d : List (Test α)) (wc rel : Curve α) : Curve α :=
+  let noRun := (runouts d).isEmpty
+  { k1 := Transc.abs (rel.k1 * wc.k1), ND := Transc.abs (rel.ND * wc.ND), TN := Transc.abs (rel.TN * wc.TN),
+    SD := if noRun then Transc.abs 0.0 else Transc.abs (rel.SD * wc.SD),
+    TS := if noRun then Transc.abs 1.0 else if fewMixedLevels d then Transc.abs wc.TS else Transc.abs (rel.TS * wc.TS) }
+
+/-- the objective `MaxLikeFull.__max_likelihood_full` hands to `fmin` (negated there).  `ND = 0`: the code computes
+`log10 ND = -inf`, the likelihood is `-inf` (`none`); `SD = 0` (always so without run-outs) is `-inf` by `likFinite`. -/
+def maxLikeFullObjective (Φ : α → α) (d : List (Test α)) (wc rel : Curve α) : Option α :=
+  let c := fullParams d wc rel
+  if 0.0 < c.ND then likTotal Φ d c else none
+
+/-- `MaxLikeFull(df).analyze()` (no user-fixed parameters) in the regular case; `opt f` = the relative parameters the
+optimiser returns for objective `f` (started at `(1, …, 1)`) -/
+def maxLikeFull (Q Φ : α → α) (opt : (Curve α → Option α) → Curve α) (d0 : List (Test α)) : Curve α :=
+  let d := irrelevantRunoutsDropped d0
+  let wc := elementaryCore Q d
+  fullParams d wc (opt (maxLikeFullObjective Φ d wc))
 
 /-! ### the transformations of the property (used by the theorems and the driver) -/
 
